@@ -123,7 +123,7 @@ theorem blockVars_nouts (m li lo di g n : List String) :
     (∀ v ∈ (blockVars m li lo di g n).scopeVars.drop (blockVars m li lo di g n).nouts,
         (blockVars m li lo di g n).inputOnly.contains v = true) := by
   simp only [blockVars]
-  generalize hbasic : basicVars (dedup m) li lo n = basic
+  generalize hbasic : basicVars (dedup m) li lo (n ++ g) = basic
   generalize hcomp : compositeVars (dedup m) li = comp
   generalize hio : basic.filter (fun v => li.contains v && !lo.contains v) = io
   generalize hsv : sortBy (keyLe io) (basic ++ comp) = sv
